@@ -68,8 +68,28 @@ func ttlProbe(sc Scenario, i int, st *Stack, d *Driver, ob StepObs) []Violation 
 	s := sc.Steps[i]
 	now := st.L1.Now()
 	var keys []string
+	seen := map[string]bool{}
 	for _, k := range keyAlphabet {
 		keys = append(keys, k)
+		seen[k] = true
+	}
+	// (and whatever other keys the scenario itself uses)
+	for _, st := range sc.Steps {
+		if st.Kind != "feed" {
+			continue
+		}
+		for _, k := range append([][]byte{st.Cmd.Key}, func() [][]byte {
+			var ks [][]byte
+			for _, g := range st.Cmd.Keys {
+				ks = append(ks, g.Key)
+			}
+			return ks
+		}()...) {
+			if len(k) > 0 && !seen[string(k)] {
+				seen[string(k)] = true
+				keys = append(keys, string(k))
+			}
+		}
 	}
 	spec := specDump(d, now, keys)
 	if st.L1.Now() != now {
